@@ -402,8 +402,8 @@ fn chk(out: &mut Shards, id: usize, t: &mut Td, rng: &mut Rng) -> bool {
         }
         vs.push(min);
         vs.push(max);
-        vs.sort_by(|a, b| a.partial_cmp(b).unwrap());
         vs.retain(|v| !v.is_nan());
+        vs.sort_by(|a, b| a.partial_cmp(b).unwrap());
         let rs: Vec<f64> = vs.iter().map(|&v| t.d.rank(v).unwrap()).collect();
         let far = (min.abs() + max.abs() + 1.0).min(f64::MAX);
         let rbelow = t.d.rank(min - far).unwrap();
